@@ -132,6 +132,16 @@ def check_probe(mc, d, m, mods):
         for p in (0, n - 1, n, 17, 18, -1):
             if ((xy[0], xy[1], p) in si) != (xy in live and 0 <= p < n):
                 return "si_contains", "core %r in description: %r" % ((xy[0], xy[1], p), (xy[0], xy[1], p) in si)
+        for p in (0, 1, n - 1, n, 17, 18, -1):
+            # (x, y, p, state): present, and in that state
+            actual = d["chips"][xy]["states"][p] if (xy in live and 0 <= p < n) else None
+            for stt in (AppState.idle, AppState.run, AppState.dead) + ((AppState(actual),) if actual is not None else ()):
+                try:
+                    got4 = (xy[0], xy[1], p, stt) in si
+                except Exception as e:      # noqa
+                    return "si_contains", "(%d, %d, %d, %s) in description raised %s" % (xy[0], xy[1], p, stt.name, type(e).__name__)
+                if got4 != (actual is not None and int(stt) == actual):
+                    return "si_contains", "core-in-state %r in description: %r (machine: %r)" % ((xy[0], xy[1], p, stt.name), got4, actual)
         for l in Links:
             if ((xy[0], xy[1], l) in si) != ((xy[0], xy[1], l) in wlinks):
                 return "si_contains", "link %r in description: %r" % ((xy[0], xy[1], int(l)), (xy[0], xy[1], l) in si)
@@ -309,14 +319,24 @@ def run(tier="quick", seed=0):
     for k in range(n_rand):
         w, h = rng.choice(((3, 3), (4, 4), (4, 3), (3, 4), (2, 4), (4, 2), (rng.randint(1, 4), rng.randint(1, 4)), (2, 9), (9, 2), (1, 17)))
         d = random_machine(rng, w, h, cores=rng.choice(("mixed", "all18")))
-        ver = (133, b"SC&MP/SpiNNaker\0") if k % 2 else (0xFFFF, b"SC&MP/SpiNNaker\x00" + rng.choice((b"2.0.0", b"3.12.7-dev", b"10.0.1+x")) + b"\0")
+        # software versions: the legacy encoding (major*100 + minor in arg2's high half) and the semantic encoding (text after
+        # the name) with every combination of one-, two- and three-digit components and several label forms, in rotation
+        j = k // 4
+        if j % 3 == 0:
+            lv = (133, 100, 256, 199, 1, 65534 // 100 * 100 + 7)[(j // 3) % 6]
+            ver = (lv, b"SC&MP/SpiNNaker\0")
+        else:
+            comps = (0, 7, 10, 123)
+            jj = j - j // 3 - 1
+            txt = "%d.%d.%d%s" % (comps[jj % 4], comps[(jj // 4) % 4], comps[(jj // 16) % 4], ("", "-dev", "-rc1", "+x.y")[(jj // 64) % 4])
+            ver = (0xFFFF, b"SC&MP/SpiNNaker\x00" + txt.encode() + b"\0")
         one(d, "rand", details=(k % 4 == 0), buffer_size=rng.choice((256, 256, 64, 24)), version=ver)
         if k % 4 == 0:
             ev += 0
             try:
                 sv = mc.get_software_version(d["root"][0], d["root"][1], 0)
-                if ver[0] == 133:
-                    exp = ("SC&MP/SpiNNaker", (1, 33, 0), "")
+                if ver[0] != 0xFFFF:
+                    exp = ("SC&MP/SpiNNaker", (ver[0] // 100, ver[0] % 100, 0), "")
                 else:
                     txt = ver[1].split(b"\0")[1].decode()
                     nums = txt.replace("-", ".").replace("+", ".").split(".")
